@@ -2,8 +2,8 @@ package sym
 
 import (
 	"crypto/sha256"
-	"go/format"
 	"fmt"
+	"go/format"
 	"go/token"
 	"go/types"
 	"sort"
